@@ -101,6 +101,8 @@ def run_case(c):
         qs.append(("zone_boundary", np.array([[0.5, 0, 0], [0.5, 0.5, 0], [0.5, 0.5, 0.5], [0, 0.5, 0]][rng.integers(4)])))
         qs.append(("outside", rng.uniform(-3, 3, 3)))
         qs.append(("gamma", np.zeros(3)))
+    G_ = rng.integers(-3, 4, size=3)
+    qs.append(("reciprocal_lattice_vector", (G_ if G_.any() else np.array([1, 0, 0])).astype(float)))  # q = G != 0: D(G) = U D(0) U^+ with the intra-cell phases
     viol = []
     fscale = np.abs(fc).max() / float(np.min(pr.masses))
     if fscale < 1e-8:
@@ -110,7 +112,10 @@ def run_case(c):
     nq = {}
     factor = ph.unit_conversion_factor
     dm = ph.dynamical_matrix
-    qarr = np.array([q for _, q in qs], float)
+    from vlib.gen.layout import relayout
+
+    lrng = np.random.default_rng(c.get("qseed", 0) + 5)
+    qarr, qkind = relayout(np.array([q for _, q in qs], float), lrng)  # list / Fortran order / strided view / read-only ...: same numbers
     ph.run_qpoints(qarr, with_dynamical_matrices=True)
     qd = ph.get_qpoints_dict()
     for k, (kind, q) in enumerate(qs):
@@ -119,9 +124,9 @@ def run_case(c):
         maxD = max(maxD, np.abs(D).max())
         nq[kind] = nq.get(kind, 0) + 1
         got = {}
-        dm.run(q, lang="C")
+        dm.run(relayout(q, lrng)[0], lang="C")
         got["C"] = np.array(dm.dynamical_matrix)
-        dm.run(q, lang="Py")
+        dm.run(relayout(q, lrng)[0], lang="Py")
         got["Py"] = np.array(dm.dynamical_matrix)
         got["run_qpoints"] = np.array(qd["dynamical_matrices"][k])
         for path, G in got.items():
@@ -142,7 +147,7 @@ def run_case(c):
     multi = ph.primitive.get_smallest_vectors()[1]
     maxmult = int(np.max(multi[..., 0])) if multi.ndim == 3 else int(np.max(multi))
     return {"viol": viol[:6], "nontrivial": nontrivial, "key": key, "evals": len(qs) * 3,
-            "obs": {"q_" + k: v for k, v in nq.items()} | {"regime_" + c["regime"]: 1, "compact": int(not c["full"]), "sparse_svecs": int(not c["store_dense_svecs"]),
+            "obs": {"q_" + k: v for k, v in nq.items()} | {"qlayout_" + qkind: 1, "regime_" + c["regime"]: 1, "compact": int(not c["full"]), "sparse_svecs": int(not c["store_dense_svecs"]),
                                                             "ws_boundary_multiplicity_gt1": int(maxmult > 1), "shells": [shells]},
             "maxerr": maxerr,
             "sample": {"crystal": c["crystal"], "smat": c["smat"], "pmat": pm, "cutoff": cutoff, "Lmin": Lmin, "shells": shells, "regime": c["regime"],
